@@ -44,11 +44,25 @@ def request_menu():
         s["state"] = {"command": "blockchainState", "version": 5}
         s["heartbeat"] = {"command": "signerHeartbeat", "version": 5, "udValue": rng.bytes(16).hex()}
         s["uihb"] = {"command": "uiHeartbeat", "version": 5, "udValue": rng.bytes(32).hex()}
+        # the same, with the UI heartbeat application answering an error status to one of its operations
+        s["uihbfail"] = {"command": "uiHeartbeat", "version": 5, "udValue": rng.bytes(32).hex()}
         slots.append(s)
     return slots
 
 
 KINDS = ["sign", "advance", "state", "heartbeat", "pubkey", "hash", "uihb", "signsame", "advpartial"]
+
+
+def fail_ui_heartbeat(world):
+    """the UI heartbeat application answers 0x6B10 to its first 'get signature' operation (once)"""
+    fired = [False]
+
+    def inject(w, i, apdu):
+        if not fired[0] and len(apdu) > 2 and apdu[1] == 0x60 and apdu[2] == 0x02 and w.device.mode != 3:
+            fired[0] = True
+            return ("sw", 0x6B10)
+        return None
+    world.inject = inject
 
 
 class C12(Check):
@@ -82,9 +96,12 @@ class C12(Check):
                 dev.advance_final = "partial"
                 w = World(dev)
                 proto = harness.make_protocol(w)
+                if k == "uihbfail":
+                    fail_ui_heartbeat(w)
                 base = len(w.log)
                 o = harness.handle_line(proto, json.dumps(req).encode())
-                if o.exc is not None or not isinstance(o.reply, dict) or o.reply.get("errorcode") not in (0, 1):
+                okcodes = (-905,) if k == "uihbfail" else (0, 1)
+                if o.exc is not None or not isinstance(o.reply, dict) or o.reply.get("errorcode") not in okcodes:
                     self.pre_violations.append(Violation(
                         "C12", "C12:solo-request-fails:%s" % k, {"cmds": [k], "frag": [1]}, None,
                         {"reply": o.raw, "exc": o.exc}, {"errorcode": "0/1"}, "solo"))
@@ -114,6 +131,11 @@ class C12(Check):
                 cs.append({"cmds": list(t), "frag": [1, 2, 1], "bound": 1 if len(set(t)) < 3 else 2})
         else:
             cs.append({"cmds": ["state", "heartbeat", "pubkey"], "frag": [1, 1, 1], "bound": 1})
+        # a request that fails in the device (UI heartbeat application answers an error status) next to
+        # requests that must not notice
+        for other in (("state", "sign") if not self.thorough else ("state", "sign", "heartbeat", "advance", "pubkey")):
+            cs.append({"cmds": ["uihbfail", other], "frag": [1, 1], "bound": self.bound - 1})
+            cs.append({"cmds": [other, "uihbfail"], "frag": [1, 1], "bound": self.bound - 1})
         # the other dongle classes (their connect() runs before the server listens), clients that
         # pause in the middle of their line
         for plat in ("tcp", "sgx"):
@@ -137,6 +159,8 @@ class C12(Check):
             dev.advance_final = "partial"
             w = World(dev)
             proto = harness.make_protocol(w, platform=case.get("platform", "ledger"))
+            if "uihbfail" in cmds:
+                fail_ui_heartbeat(w)
             frags = []
             for i, line in enumerate(lines):
                 if case["frag"][i] == 1:
